@@ -4,6 +4,7 @@ use std::env;
 use vaporetto::{CharacterBoundary, Sentence};
 
 mod c02;
+mod c05;
 
 fn main() {
     std::panic::set_hook(Box::new(|_| {}));
@@ -15,6 +16,8 @@ fn main() {
     let found = match (args[1].as_str(), args[2].as_str()) {
         ("c02", "search") => c02::search(),
         ("c02", "replay") => c02::replay(&args[3]),
+        ("c05", "search") => c05::search(),
+        ("c05", "replay") => c05::replay(&args[3]),
         _ => {
             eprintln!("unknown unit/mode");
             std::process::exit(2);
@@ -45,4 +48,22 @@ pub fn sentence_with(text: &str, labels: &[CharacterBoundary]) -> Sentence<'stat
     let mut s = Sentence::from_raw(text.to_string()).unwrap();
     s.boundaries_mut().copy_from_slice(labels);
     s
+}
+
+/// JSON string literal (the Debug format of str is not JSON)
+pub fn js(s: &str) -> String {
+    let mut o = String::from("\"");
+    for c in s.chars() {
+        match c {
+            '"' => o.push_str("\\\""),
+            '\\' => o.push_str("\\\\"),
+            '\n' => o.push_str("\\n"),
+            '\r' => o.push_str("\\r"),
+            '\t' => o.push_str("\\t"),
+            c if (c as u32) < 0x20 => o.push_str(&format!("\\u{:04x}", c as u32)),
+            c => o.push(c),
+        }
+    }
+    o.push('"');
+    o
 }
